@@ -143,6 +143,56 @@ let do_dm () =
   done;
   print_endline (Buffer.contents out)
 
+(* DC: same payload as DM, replayed on the CONCRETE model (MovesConcrete.v): after every operation the
+   abstraction of the arrays (abs) and the arrays themselves
+   (rowFirstCell_/rowLastCell_/cellPred_/cellNext_/cellRow_/cellX_/cellY_/cellOrientation_) *)
+let show_cstate cs =
+  let st = match cstate_abs cs with Some s -> show_dstate s | None -> "ABS-NONE" in
+  let il l = String.concat "," (List.map zi l) in
+  (match cstate_arrays cs with
+   | [f; l; p; n; r; x; y] ->
+     Printf.sprintf "%s # first=%s last=%s pred=%s next=%s row=%s x=%s y=%s orient=%s" st (il f) (il l) (il p) (il n) (il r) (il x) (il y)
+       (String.concat "," (List.map (fun o -> string_of_int (int_of_orient o)) (cstate_orients cs)))
+   | _ -> "?ARRAYS")
+
+let do_dc () =
+  let nr = nexti () in
+  let rows = Array.of_list (rep nr (fun () -> let a = z () in let b = z () in let y = z () in let o = orient_of_int (nexti ()) in (a, b, y, o))) in
+  let nc = nexti () in
+  let cells = Array.of_list (rep nc (fun () -> let w = z () in let x = z () in let r = nexti () in let p = pol_of_int (nexti ()) in let o = orient_of_int (nexti ()) in (w, x, r, p, o))) in
+  let pred = Array.make nc (-1) and next = Array.make nc (-1) and rowa = Array.make nc (-1) in
+  let first = Array.make nr (-1) and last = Array.make nr (-1) in
+  for ri = 0 to nr - 1 do
+    let cs = List.filter (fun i -> let (_, _, r, _, _) = cells.(i) in r = ri) (List.init nc (fun i -> i)) in
+    let cs = List.stable_sort (fun i j -> let (_, x1, _, _, _) = cells.(i) in let (_, x2, _, _, _) = cells.(j) in compare (int_of_z x1) (int_of_z x2)) cs in
+    List.iter (fun c -> rowa.(c) <- ri) cs;
+    let rec link = function a :: (b :: _ as t) -> next.(a) <- b; pred.(b) <- a; link t | _ -> () in
+    link cs;
+    (match cs with [] -> () | c :: _ -> first.(ri) <- c; last.(ri) <- List.nth cs (List.length cs - 1))
+  done;
+  let zl a = List.map z_of_int (Array.to_list a) in
+  let cl f = List.map f (Array.to_list cells) in
+  let cs = ref (cstate_make (List.map (fun (a, b, y, o) -> crow_make a b y o) (Array.to_list rows))
+                  (zl first) (zl last) (cl (fun (w, _, _, _, _) -> w)) (zl pred) (zl next) (zl rowa)
+                  (cl (fun (_, x, _, _, _) -> x)) (cl (fun (_, _, r, _, _) -> let (_, _, y, _) = rows.(r) in y))
+                  (cl (fun (_, _, _, _, o) -> o)) (cl (fun (_, _, _, p, _) -> p))) in
+  let nops = nexti () in
+  let out = Buffer.create 256 in
+  Buffer.add_string out ("INIT " ^ show_cstate !cs);
+  let pred_of_int p = if p < 0 then None else Some (nat_of_int p) in
+  for _ = 1 to nops do
+    let t = nexti () in
+    let op = (match t with
+      | 0 -> let a = nexti () in let b = nexti () in MSwap (nat_of_int a, nat_of_int b)
+      | 1 -> let a = nexti () in let r = nexti () in let p = nexti () in MInsert (nat_of_int a, nat_of_int r, pred_of_int p)
+      | 2 -> let a = nexti () in MUnplace (nat_of_int a)
+      | _ -> let a = nexti () in let r = nexti () in let p = nexti () in let x = z () in MPlace (nat_of_int a, nat_of_int r, pred_of_int p, x)) in
+    (match (if cop_pre !cs op then apply_cop !cs op else None) with
+     | Some cs' -> cs := cs'; Buffer.add_string out (" / OK " ^ show_cstate !cs)
+     | None -> Buffer.add_string out (" / NO " ^ show_cstate !cs))
+  done;
+  print_endline (Buffer.contents out)
+
 (* OP circuit nsteps [ncand [0 | 1 nm [c x y]...]...]... : model of bestSwap/bestInsert/bestSwapUpdate *)
 let do_op () =
   let (cells, nets) = read_circuit () in
@@ -187,6 +237,7 @@ let () =
           | "RL" -> do_rl ()
           | "RLC" -> do_rlc ()
           | "DM" -> do_dm ()
+          | "DC" -> do_dc ()
           | "OT" -> do_ot ()
           | "LG" -> do_lg ()
           | "LC" -> do_lc ()
